@@ -1,6 +1,7 @@
 package coraza
 
 import (
+	"github.com/corazawaf/coraza/v3/types"
 	"io"
 
 	"github.com/corazawaf/coraza/v3/collection"
@@ -55,6 +56,7 @@ type vpC05Out struct {
 	fired       []string
 	interrupted bool
 	reqBody     string
+	state       string // per-transaction overrides as the new transaction starts
 }
 
 func vpC05Dump(tx *corazawaf.Transaction) []string {
@@ -86,6 +88,10 @@ func vpC05Dump(tx *corazawaf.Transaction) []string {
 
 func vpC05Probe(tx *corazawaf.Transaction) vpC05Out {
 	var o vpC05Out
+	// engine, audit and body overrides a ctl may have changed on the predecessor
+	o.state = "engine=" + tx.RuleEngine.String() + " audit=" + vpItoaC05(int64(tx.AuditEngine)) + " parts=" + vpPartsString(tx.AuditLogParts) +
+		" reqaccess=" + vpB(tx.RequestBodyAccess) + " reqlimit=" + vpItoaC05(tx.RequestBodyLimit) +
+		" resaccess=" + vpB(tx.ResponseBodyAccess) + " reslimit=" + vpItoaC05(tx.ResponseBodyLimit) + " force=" + vpB(tx.ForceRequestBodyVariable)
 	vpSeeReset()
 	for i := range vpSeeMatch {
 		vpSeeMatch[i] = true
@@ -159,6 +165,13 @@ func VpC05Isolation() {
 	_ = pre.Close()
 	if vp.Choice("closetwice", 2) == 1 {
 		_ = pre.Close()
+		// a transaction closed twice must not be handed out twice: two transactions that are alive
+		// at the same time are two objects
+		t1 := waf.NewTransaction()
+		t2 := waf.NewTransaction()
+		vp.Assert(t1 != t2, "after a double Close the WAF hands the same transaction object to two live transactions")
+		_ = t2.Close()
+		_ = t1.Close()
 	}
 	if handed != nil {
 		buf := make([]byte, 4)
@@ -178,6 +191,7 @@ func VpC05Isolation() {
 	vp.Assert(vpMultisetEq(o1.fired, o2.fired), "probe fired different rules on the recycled transaction")
 	vp.Assert(o1.interrupted == o2.interrupted, "probe interruption differs on the recycled transaction")
 	vp.Assert(o1.reqBody == o2.reqBody, "probe request body differs on the recycled transaction")
+	vp.Assert(o1.state == o2.state, "a recycled transaction starts with engine / audit / body overrides that differ from a new transaction's")
 	for _, e := range o1.dump {
 		if vpCount(o1.dump, e) != vpCount(o2.dump, e) {
 			vp.Observe("only-or-more-on-recycled", e)
@@ -199,4 +213,38 @@ func VpC05Isolation() {
 	_ = rec.Close()
 	_ = ref.Close()
 	vp.Reached("end")
+}
+
+func vpB(b bool) string {
+	if b {
+		return "1"
+	}
+	return "0"
+}
+
+func vpItoaC05(n int64) string {
+	if n == 0 {
+		return "0"
+	}
+	neg := n < 0
+	if neg {
+		n = -n
+	}
+	s := ""
+	for n > 0 {
+		s = string(rune('0'+n%10)) + s
+		n /= 10
+	}
+	if neg {
+		s = "-" + s
+	}
+	return s
+}
+
+func vpPartsString(p types.AuditLogParts) string {
+	b := make([]byte, len(p))
+	for i, c := range p {
+		b[i] = byte(c)
+	}
+	return string(b)
 }
